@@ -28,6 +28,11 @@ def format_query_argument(key, value, format_value=None):
 def format_url(
     base_url, path=None, args=None, format_arg_value=None, fragment=None, ext=None
 ):
+    # NOTE: the base url might already have a query and a fragment, which must
+    # remain after what we add to the path
+    base_url, _, base_fragment = base_url.partition("#")
+    base_url, _, base_query = base_url.partition("?")
+
     url = base_url
 
     # Path
@@ -44,22 +49,26 @@ def format_url(
         url += "." + ext.lstrip(".")
 
     # Arguments
+    items = [base_query] if base_query else []
+
     if args is not None:
         iterator = sorted(args.items()) if isinstance(args, dict) else iter(args)
 
         # NOTE: this must be a list, a generator would always be truthy
-        items = [
+        items += [
             format_query_argument(k, v, format_arg_value)
             for k, v in iterator
             if v is not None and v is not False
         ]
 
-        if items:
-            url += "?" + ("&".join(items))
+    if items:
+        url += "?" + ("&".join(items))
 
     # Fragment
     if fragment is not None:
         url += "#" + fragment.lstrip("#")
+    elif base_fragment:
+        url += "#" + base_fragment
 
     return url
 
